@@ -1,6 +1,7 @@
 //! Probe engines: each one drives a piece of the real amiquip code with the line protocol of
 //! DESIGN.md Appendix A and prints canonical observations.
 
+pub mod framebuf;
 pub mod slots;
 pub mod smoother;
 
@@ -11,6 +12,7 @@ pub trait Engine {
 
 pub fn make(name: &str) -> Option<Box<dyn Engine>> {
     match name {
+        "framebuf" => Some(Box::new(framebuf::FrameBufEngine::default())),
         "slots" => Some(Box::new(slots::SlotsEngine::default())),
         "smoother" => Some(Box::new(smoother::SmootherEngine::default())),
         _ => None,
